@@ -14,6 +14,11 @@
 (* DOMAIN.  The tree that is proven (table T, root row R) consists of ordinary   *)
 (* cells of level 0 (LevelZero).                                                 *)
 (*                                                                               *)
+(* PROVER AND SESSIONS.  A prover is the immutable pair (T, R).  Every Cursor()    *)
+(* (and every ProveKeyInHashmap) opens a session whose prune set is EMPTY; only   *)
+(* the Prunes made through cursors of that session count for its proof, however    *)
+(* many proofs the prover made before or makes concurrently (section a').          *)
+(*                                                                               *)
 (* NODES ARE OCCURRENCES.  A cursor position is a PATH: the sequence of          *)
 (* reference positions (1-based) followed from the root.  A cell that occurs     *)
 (* several times in the DAG (shared sub-tree, or two structurally identical      *)
